@@ -528,7 +528,7 @@ var requiredClasses = func() []string {
 			"consumer:cli-untar:gnu-tar:victim-chunk-metadata-only", "consumer:cli-extract",
 			"cli:option:none", "cli:option:"+optTrustInsecure, "cli:option:"+optErrorRetry, "cli:option:"+optRetryInterval, "cli:option:"+optVerbose,
 			"cli:option:"+optCfgSkipOther, "cli:option:"+optCfgSkipThis, "cli:option:"+optPrintStats, "cli:option:"+optInPlace,
-			"cli:option:"+optCfgSkipOther+":url-case", "cli-role:http", "cli:unverified-run-succeeded")
+			"cli:option:"+optCfgSkipOther+":url-case", "cli-role:http", "cli:unverified-run-succeeded", "cli:option:"+optCfgAmbiguous, "cli:role:failover-group-second-member")
 	}
 	for _, b := range quickBackends {
 		req = append(req, "backend:"+b+":compressed")
